@@ -175,10 +175,16 @@ def observe(ma):
             exc = [ea.start, ea.end, [(h[2].start if h[2] is not None else -1) for h in ea.exceptions]]
         sp = []
         for idx, obj in sorted(b.special_ins.items()):
-            sp.append([idx, by_id.get(id(obj), -1) if obj is not None else -1])
+            via = b.get_special_ins(idx)              # the accessor and the table must tell the same
+            sp.append([idx, (by_id.get(id(obj), -1) if obj is not None else -1) if via is obj else -98])
+        for off in offs:                              # ... and the accessor links nothing else
+            if b.start <= off < b.end and off not in b.special_ins and b.get_special_ins(off) is not None:
+                sp.append([off, -97])
+        nxt, prv = b.get_next(), b.get_prev()         # successors / predecessors through the accessors, cross-checked with the attributes
+        same = [id(x[2]) for x in nxt] == [id(x[2]) for x in b.childs] and [id(x[2]) for x in prv] == [id(x[2]) for x in b.fathers]
         B.append(dict(s=b.start, e=b.end, nb=b.get_nb_instructions(), ins=[o for o in offs if b.start <= o < b.end],
-                      ch=[c[2].start for c in b.childs if c[2] is not None], choff=[[c[0], c[1]] for c in b.childs],
-                      fa=[f[2].start for f in b.fathers if f[2] is not None], exc=exc, sp=sp))
+                      ch=[c[2].start for c in nxt if c[2] is not None] if same else [-99], choff=[[c[0], c[1]] for c in nxt],
+                      fa=[f[2].start for f in prv if f[2] is not None] if same else [-99], exc=exc, sp=sp))
     return B
 
 
